@@ -315,21 +315,21 @@ def run_standalone(c, o):
         from openaerostruct.geometry.geometry_unification import GeomMultiUnification
         from openaerostruct.geometry.geometry_multi_join import GeomMultiJoin
 
-        ns = 2 + int(c["seed"] % 2)
-        parts = []
-        for i in range(ns):
-            parts.append(M.build(M.random_spec(rng, half="left", nx=nx, ny=int(rng.integers(2, 5)))))
-        secs = [{"mesh": p_, "name": "sec%d" % i, "t_over_c_cp": np.array([0.1])} for i, p_ in enumerate(parts)]
-        ins = {"sec%d_def_mesh" % i: p_.copy() for i, p_ in enumerate(parts)}
-        ins.update({"sec%d_t_over_c" % i: rng.uniform(0.08, 0.15, p_.shape[1] - 1) for i, p_ in enumerate(parts)})
-        for shift in (True, False):
-            evs.append(dict(cls=GeomMultiUnification, opts=dict(sections=secs, surface_name="surface", shift_uni_mesh=shift), inputs=ins, outputs={}))
-        if ns > 1:
-            dc = [np.array([int(x) for x in rng.integers(0, 2, 3)]) for _ in range(ns - 1)]
-            for d in dc:
-                if d.sum() == 0:
-                    d[0] = 1
-            evs.append(dict(cls=GeomMultiJoin, opts=dict(sections=secs, dim_constr=dc), inputs={"sec%d_join_mesh" % i: p_.copy() for i, p_ in enumerate(parts)}, outputs={}))
+        for ns in (2, 3, 4):  # the sparsity pattern of the unification Jacobian differs for first / middle / last sections
+            parts = []
+            for i in range(ns):
+                parts.append(M.build(M.random_spec(rng, half="left", nx=nx, ny=int(rng.integers(2, 5)))))
+            secs = [{"mesh": p_, "name": "sec%d" % i, "t_over_c_cp": np.array([0.1])} for i, p_ in enumerate(parts)]
+            ins = {"sec%d_def_mesh" % i: p_.copy() for i, p_ in enumerate(parts)}
+            ins.update({"sec%d_t_over_c" % i: rng.uniform(0.08, 0.15, p_.shape[1] - 1) for i, p_ in enumerate(parts)})
+            for shift in (True, False):
+                evs.append(dict(cls=GeomMultiUnification, opts=dict(sections=secs, surface_name="surface", shift_uni_mesh=shift), inputs=ins, outputs={}))
+            if ns > 1:
+                dc = [np.array([int(x) for x in rng.integers(0, 2, 3)]) for _ in range(ns - 1)]
+                for d in dc:
+                    if d.sum() == 0:
+                        d[0] = 1
+                evs.append(dict(cls=GeomMultiJoin, opts=dict(sections=secs, dim_constr=dc), inputs={"sec%d_join_mesh" % i: p_.copy() for i, p_ in enumerate(parts)}, outputs={}))
     elif w == "spar_within_wing":
         from openaerostruct.structures.spar_within_wing import SparWithinWing
 
